@@ -202,6 +202,7 @@ def run(rep, tier):
                     rep.tie_broken('Lean find_peaks model and implementation disagree', {'op': ln[:300], 'model': o, 'impl': e})
     starfinders(rep, drv, r, 16 * scale)
     edge_padding_probe(rep, r, 6 * scale)
+    weak_scalar_probe(rep, r, 12 * scale)
     centroid_refine(rep, r, 10 * scale)
     exclude_border_probe(rep, r, 8 * scale)
     separation_symmetry_probe(rep, r, 12 * scale)
@@ -272,6 +273,32 @@ def corpus_nonpositive_convolved_peak(rep):
             rep.violation(f'starfinder-nonfinite:{col}:DAOStarFinder', f'DAOStarFinder: the returned table has a non-finite `{col}` '
                           f'({[float(v) for v in np.asarray(tbl[col], float)]}; fluxes {[float(v) for v in tbl["flux"]]})',
                           {'finder': 'DAOStarFinder', 'corpus': 'F76', 'seed': 26, 'xycoords': xyc.tolist()})
+
+
+def weak_scalar_probe(rep, r, n):
+    """find_peaks on float32 images with isolated pixels within one float32 rounding step of a Python-float threshold: the peaks are the
+    pixels strictly above the threshold (real numbers), as for the same values held in float64 (F80)"""
+    from photutils.detection import find_peaks
+    for k in range(n):
+        t = float(r.choice([0.1, 0.3, 0.7, 1.1, 2.3, 0.05]) * r.choice([1, 1, 10, 0.5]))
+        t32 = np.float32(t)
+        vals = [t32, np.nextafter(t32, np.float32(np.inf)), np.nextafter(t32, np.float32(-np.inf))]
+        img = np.zeros((9, 11), np.float32)
+        for (y, x) in [(1, 1), (1, 5), (1, 9), (4, 3), (4, 7), (7, 1), (7, 5), (7, 9)]:
+            img[y, x] = r.choice(vals)
+        want = sorted((int(y), int(x)) for y, x in np.argwhere(img.astype(np.float64) > t))
+        for form in ('python-float', 'float64-data'):
+            arr = img.astype(np.float64) if form == 'float64-data' else img
+            with warnings.catch_warnings():
+                warnings.simplefilter('ignore')
+                tbl = find_peaks(arr, t, box_size=3)
+            got = [] if tbl is None else sorted((int(y), int(x)) for x, y in zip(tbl['x_peak'], tbl['y_peak']))
+            rep.case(('weak-scalar', img.tobytes(), t, form), bool(want), kind='find_peaks:float32-knife-edge:' + form)
+            rep.probe_only += 1
+            if got != want:
+                rep.violation('find_peaks-float32-threshold-rounded', f'find_peaks (float32 image, threshold {t!r}, {form}): peaks {got} but the isolated pixels '
+                              f'strictly above the threshold are {want}', {'data_float32': img.astype(float).tolist(), 'threshold': t, 'form': form, 'box_size': 3})
+                break
 
 
 def edge_padding_probe(rep, r, n):
